@@ -1631,3 +1631,6 @@ def _calls_dominating(f, bb):
         if t['k'] == 'call' and callee_of(t):
             out.append('call ' + short(callee_of(t)))
     return out
+
+# as-built addendum
+EXPLANATION += ' As built (DESIGN 9.2): As built: D-CURSOR, D-POS (through nested finders), D-GUARD, D-CALLER, D-INFALLIBLE discharges; recursive components of the call graph are sites (identified by entry functions); the stack of pending inputs is bounded; reviewed entries may carry whole-function predicates (@...) that are re-evaluated on every run.'
